@@ -10,6 +10,11 @@ CLAIMED = {
     text='Seeded search over histories of beartype_all/_package(s)/_this_package calls and (nested, raising) beartyping() blocks; after every operation the real registry is queried for ~40 module names and compared with a three-value reference model (nearest registered ancestor, skip/exclusion, restore-on-exit, failed call changes nothing, path hook present iff registry non-empty). Evidence, not proof.',
     note='Trusted: the reference model (the property\'s sentences; reading of "restores exactly" stated in the evidence assumptions), in-place state restore between runs (violations re-confirmed in a pristine fork).',
     design='5/C06'),
+ 'C08': dict(
+    technique='deterministic simulation: virtual-time asyncio event loop + protocol-operation driver, seeded cancellation/time-out/throw/close/finalisation faults, undecorated twin as oracle',
+    text='Seeded search over generated generator / async-generator / coroutine bodies x protocol-operation sequences and event-loop scenarios (virtual time, seeded I/O completion, cancellation and time-outs injected at seeded instants, early break + finalisation, shutdown with live generators); the decorated function must produce the same per-object trace, body log (cleanup order) and final state as its undecorated twin, and report the same kind to inspect. Evidence, not proof.',
+    note='Trusted: the virtual loop (asyncio.BaseEventLoop with a fake selector), the trampoline driver, the body generator (no yields while handling GeneratorExit, as the property excludes them).',
+    design='5/C08'),
  'C17': dict(
     technique='deterministic simulation: seeded construction histories with look-alike/invalid/unhashable value and environment faults against a reference memo-table model; threaded fraction under the baton scheduler',
     text='Seeded search over histories of BeartypeConf constructions (valid, invalid, equal-but-differently-typed, unhashable values; BEARTYPE_IS_COLOR faults; two threads under the scheduler in 20% of runs) checked step by step against a small executable reference model of validation and memoisation. Evidence, not proof.',
@@ -32,7 +37,7 @@ NOT_APPLICABLE = {
 }
 
 PENDING = {k: 'not claimed yet: the simulation engine for this property (DESIGN.md section 5) is not built at this commit' for k in
-           ['C01','C02','C03','C07','C08','C09','C10','C11','C14','C16','C18']}
+           ['C01','C02','C03','C07','C09','C10','C11','C14','C16','C18']}
 
 def main():
     checks = []
